@@ -24,6 +24,7 @@ type bcIns struct {
 	NoReturn bool   // native whose every return is an error (never falls through)
 	Scope    [2]int // opscope: variable count, arity
 	Hole     string // template hole: a sub-compilation
+	HolePop, HolePush int
 	HoleGen  bool
 	Pos      token.Pos
 	VType    string // Go type of the operand expression
@@ -102,6 +103,12 @@ type bcState struct{ pc, d, p, e int }
 // bcVerify runs the verifier on seq starting at instruction 0 with entry depth entryDepth.
 // holeEffect gives, for template holes, (pops, pushes).
 func bcVerify(seq []bcIns, entryDepth int, requireRet bool) (problems []bcProblem, reached []bool, depths []int) {
+	p, r, d, _ := bcVerifyFrom(seq, 0, entryDepth, requireRet)
+	return p, r, d
+}
+
+// bcVerifyFrom starts at instruction `start`; endStates collects the (depth, path, exp) states that fall out of the end.
+func bcVerifyFrom(seq []bcIns, start, entryDepth int, requireRet bool) (problems []bcProblem, reached []bool, depths []int, endStates []bcState) {
 	n := len(seq)
 	depth := make([]int, n)
 	pathd := make([]int, n)
@@ -114,7 +121,7 @@ func bcVerify(seq []bcIns, entryDepth int, requireRet bool) (problems []bcProble
 	if n > 0 && seq[0].Op == "opscope" {
 		varcnt = seq[0].Scope[0]
 	}
-	work := []bcState{{0, entryDepth, 0, 0}}
+	work := []bcState{{start, entryDepth, 0, 0}}
 	steps := 0
 	for len(work) > 0 {
 		steps++
@@ -125,7 +132,8 @@ func bcVerify(seq []bcIns, entryDepth int, requireRet bool) (problems []bcProble
 		s := work[len(work)-1]
 		work = work[:len(work)-1]
 		if s.pc == n && !requireRet {
-			continue // a template may fall out of its end; the final depth is checked by the caller
+			endStates = append(endStates, s) // a template may fall out of its end; the final state is checked by the caller
+			continue
 		}
 		if s.pc < 0 || s.pc >= n {
 			report(s.pc, "control leaves the sequence at index %d", s.pc)
@@ -151,7 +159,8 @@ func bcVerify(seq []bcIns, entryDepth int, requireRet bool) (problems []bcProble
 		need := 0
 		switch in.Op {
 		case "hole":
-			need = 1
+			need = in.HolePop
+			d += in.HolePush - in.HolePop
 		case "opcall":
 			need = 1 + in.ArgCnt
 			d -= in.ArgCnt
@@ -215,7 +224,7 @@ func bcVerify(seq []bcIns, entryDepth int, requireRet bool) (problems []bcProble
 			work = append(work, bcState{s.pc + 1, d, p, e})
 		}
 	}
-	return problems, reached, depth
+	return problems, reached, depth, endStates
 }
 
 // ---- extraction of literal lists ----
